@@ -1040,3 +1040,125 @@ theorem clear_good {F : Type} [Agg.Num F] {c : Cfg} (acfg : Agg.Cfg) {st : St F}
 end TV.Props.Stack
 
 #print axioms TV.Props.Stack.clear_good
+
+/-! ## C03 for the whole stack: what does not answer a probe of the round in progress is noise -/
+namespace TV.Props.Stack
+open TV TV.Strat TV.Stack
+
+/-- what of an iteration's result concerns the trace: tracing state, `State`, channel, the call log and
+the published round (the response `recv_probe` happened to return is not part of it) -/
+def Essence {F : Type} (x : R (St F × Out)) : R (TS × Agg.State F × Chan.Chan × List (Probe × SendOutcome) × Option Round) :=
+  match x with
+  | .ok (st', o) => .ok (st'.ts, st'.agg, st'.chan, o.sent, o.published)
+  | .err e => .err e
+  | .panic => .panic
+
+/-- **A datagram that is not a genuine answer is noise (C03 for the stack).**  ICMP or UDP trace; the
+receive socket delivers `bytes`, which the family's receive code decodes to a response `w` — or to
+nothing — and `w` is not *genuine* for the state after the send step (it fails `validate`, carries a
+foreign trace identifier, names a sequence outside the round's window, a slot that is not awaited, or
+a probe of an earlier round: `C03.duplicate_rejected`, `never_sent_rejected`, `stale_probe_rejected`,
+`foreign_trace_id_rejected`, `invalid_tuple_rejected`, `sibling_response_rejected`).  Then the iteration
+ends exactly as if the socket had not been readable at all: same tracing state, same `State`, same
+channel, same published round. -/
+theorem nongenuine_datagram_is_noise {F : Type} [Agg.Num F] {c : Cfg} (hc : CfgOk c) {st : St F}
+    (hs : Reach c st.ts) (e : Env) (hp : st.chan.cfg.proto ≠ .tcp)
+    (hrd : e.recv.readable = .yes) (src bytes : Buf) (hdg : e.recv.dgram = .data src bytes)
+    (w : Option Wire.WResp)
+    (hw : Wire.recvIcmp st.chan.cfg (bytes.take 1024) src = .ok w)
+    (hng : ∀ ch ts1 sent calls x, sendRequestS c st.chan st.ts e.injs = .ok (ch, ts1, sent, calls) →
+      w = some x → genuine c ts1 (x.toStrat (st.chan.now + e.dt)) = none) :
+    Essence (Stack.iter c st e) =
+      Essence (Stack.iter c st { e with recv := { e.recv with readable := .no } }) := by
+  have hi := reach_inv hc hs
+  unfold Stack.iter
+  cases hsend : sendRequestS c st.chan st.ts e.injs with
+  | panic => rfl
+  | err er => rfl
+  | ok r =>
+    obtain ⟨ch, ts1, sent, calls⟩ := r
+    have hsame := sendRequestS_chan hsend
+    simp only [SameChan] at hsame
+    have hsr := sendRequestS_ok hsend
+    simp only at hsr
+    have hi1 : Inv c ts1 := ((sendRequest_spec hc hi _).2 _ _ hsr).1
+    have hcfg : (Chan.advance ch e.dt).cfg = st.chan.cfg := by simp [Chan.advance, hsame.1]
+    have hnt : (Chan.advance ch e.dt).cfg.proto ≠ .tcp := by rw [hcfg]; exact hp
+    have hnow : (Chan.advance ch e.dt).now = st.chan.now + e.dt := by simp [Chan.advance, hsame.2.1]
+    -- what `recv_probe` returns in the two environments
+    have h1 : (Chan.recv (Chan.advance ch e.dt) e.recv).out = .ok w := by
+      rw [(Channel.recv_is_wire_recv _ _).1 hnt, (Channel.recv_is_wire_recv _ _).2.1 src bytes hrd hdg, hcfg]
+      exact hw
+    have h2 : (Chan.recv (Chan.advance ch e.dt) { e.recv with readable := .no }).out = .ok none := by
+      rw [(Channel.recv_is_wire_recv _ _).1 hnt, (Channel.recv_is_wire_recv _ _).2.2.1 rfl]
+    have hc1 := Chan.recv_nontcp (Chan.advance ch e.dt) e.recv hnt
+    have hc2 := Chan.recv_nontcp (Chan.advance ch e.dt) { e.recv with readable := .no } hnt
+    have hchan : (Chan.recv (Chan.advance ch e.dt) e.recv).chan =
+        (Chan.recv (Chan.advance ch e.dt) { e.recv with readable := .no }).chan := by rw [hc1, hc2]
+    have hpol : (Chan.recv (Chan.advance ch e.dt) e.recv).polled =
+        (Chan.recv (Chan.advance ch e.dt) { e.recv with readable := .no }).polled := by rw [hc1, hc2]
+    simp only [R.bind_ok, h1, h2, hnow]
+    cases w with
+    | none => simp only [recvOutcome, R.bind_ok, hchan, hpol]
+    | some x =>
+      have hg := hng ch ts1 sent calls x hsend rfl
+      simp only [recvOutcome, R.bind_ok]
+      rw [recvResponse_spec hi1, hg]
+      simp only [recvResponse, R.bind_ok]
+      cases hu : updateRound c (tick ts1 e.dt) with
+      | panic => rfl
+      | err er => rfl
+      | ok v =>
+        obtain ⟨ts3, pub⟩ := v
+        simp only [R.bind_ok]
+        cases pub with
+        | none => simp only [R.bind_ok, Essence, hchan]
+        | some rd =>
+          cases ha : st.agg.updateFromRound rd with
+          | panic => simp only [ha, R.bind_panic, Essence]
+          | err er => simp only [ha, R.bind_err, Essence]
+          | ok agg' => simp only [ha, R.bind_ok, Essence, hchan]
+
+end TV.Props.Stack
+
+#print axioms TV.Props.Stack.nongenuine_datagram_is_noise
+
+namespace TV.Props.Stack
+open TV TV.Strat TV.Stack
+
+/-- **A quotation of somebody else's datagram is noise** (`nongenuine_datagram_is_noise` ∘ `C02.foreign_v4`):
+UDP trace over IPv4; a router's Time Exceeded / Destination Unreachable quoting *any* IPv4 datagram
+that goes to another destination or carries another fixed port (a sibling tracer's probe, another
+program's traffic).  Whatever the receive code makes of it, the iteration ends as if nothing had been
+readable. -/
+theorem foreign_quotation_is_noise {F : Type} [Agg.Num F] {c : Cfg} (hc : CfgOk c) {st : St F}
+    (hs : Reach c st.ts) (e : Env) (hcs : C02.Compat st.chan.cfg c) (haddr : st.chan.cfg.AddrOk)
+    (hv : st.chan.cfg.v6 = false) (hp : st.chan.cfg.proto = .udp)
+    (m : C02.ErrMsg false) (o : Quote.Outer4) (responder src : Buf) (hr : responder.length = 4)
+    (qsrc qdst : Buf) (hqs : qsrc.length = 4) (hqd : qdst.length = 4)
+    (d : Buf) (i0 i1 pr a0 a1 a2 a3 a4 a5 a6 a7 : UInt8)
+    (hD : Wire.IsDatagram4 qsrc qdst d i0 i1 pr a0 a1 a2 a3 a4 a5 a6 a7) (mu : Quote.Mut4) (n : Nat)
+    (hb : Wire.BodyOk false (Quote.quote4 mu d n) m.b)
+    (hforeign : C02.Foreign st.chan.cfg c qdst (Wire.beN a0 a1) (Wire.beN a2 a3))
+    (hfit : (Quote.deliver st.chan.cfg o responder
+        (Quote.icmpMessage false m.h m.b (Quote.quote4 mu d n))).length ≤ 1024)
+    (hrd : e.recv.readable = .yes)
+    (hdg : e.recv.dgram = .data src (Quote.deliver st.chan.cfg o responder
+        (Quote.icmpMessage false m.h m.b (Quote.quote4 mu d n))))
+    (w : Option Wire.WResp)
+    (hw : Wire.recvIcmp st.chan.cfg (Quote.deliver st.chan.cfg o responder
+        (Quote.icmpMessage false m.h m.b (Quote.quote4 mu d n))) src = .ok w) :
+    Essence (Stack.iter c st e) =
+      Essence (Stack.iter c st { e with recv := { e.recv with readable := .no } }) := by
+  refine nongenuine_datagram_is_noise (F := F) hc hs e (by rw [hp]; simp) hrd src _ hdg w
+    (by rw [List.take_of_length_le hfit]; exact hw) ?_
+  intro ch ts1 sent calls x _ hx
+  subst hx
+  have hval := (C02.foreign_v4 st.chan.cfg c hcs haddr hv m o responder src hr qsrc qdst hqs hqd
+    d i0 i1 pr a0 a1 a2 a3 a4 a5 a6 a7 hD mu n hb).2 (by rw [hp]; simp) hforeign x hw (st.chan.now + e.dt)
+  unfold genuine
+  simp [hval]
+
+end TV.Props.Stack
+
+#print axioms TV.Props.Stack.foreign_quotation_is_noise
